@@ -7,4 +7,6 @@ export CARGO_NET_OFFLINE=true
 mkdir -p build/gen evidence replay/out
 [ -f replay/Cargo.lock ] || cp /repo/Cargo.lock replay/Cargo.lock
 (cd replay && cargo build --release --offline 2>&1 | tail -3)
+[ -f replay12/Cargo.lock ] || cp /repo/Cargo.lock replay12/Cargo.lock
+(cd replay12 && cargo build --release --offline 2>&1 | tail -2)
 echo "setup done"
